@@ -155,7 +155,7 @@ def run_job(job):
     case = lcdcheck.get_case(cs)
     ref = lcdcheck.get_ref(case)
     if not ref["tractable"]:
-        agg.notes["case_rejected_intractable"] += 1
+        agg.notes["case_skipped_untimed_analysis_raises" if ref.get("error") else "case_rejected_intractable"] += 1
         return agg.to_dict()
     n_runs = job["n"]
     if ref["lines"] > 150000 and not cs.get("keep_runs"):
@@ -382,6 +382,13 @@ def build_cases(tier, seed):
             t = corpus.repeat_kernel(lines, times)
             tag = "rep%d" % times
         cases.append({"name": "%s+%s#%d" % (name, tag, j), "arch": "zen1" if isa == "x86" else arm_models[j % 4], "text": t})
+    # kernels deep inside a big file (all line numbers above 1000), with and without the closing branch
+    for j in range(4 if tier == "quick" else 24):
+        isa = "x86" if j % 2 == 0 else "aarch64"
+        shape, t = corpus.gen_kernel(isa, rng, rng.choice([50, 54, 60]), rng.choice(["chains", "ring1", "bump_mem", "mixed"]), noise=False)
+        body, sel = corpus.deep_variant(t, isa, rng.choice([1000, 1499, 5000]), drop_tail=(j % 4 < 2))
+        cases.append({"name": "gen/deep-%s-%d" % (shape, j), "arch": "zen1" if isa == "x86" else arm_models[j % 4], "text": body,
+                      "lines": sel})
     for w in corpus.windowed_cases(rng, 4 if tier == "quick" else 30):
         cases.append({"name": w["name"], "arch": w["arch"], "text": w["text"], "lines": w["lines"]})
     # path-rich but enumerable: one worker collects thousands of raw paths (buffers, batching, caps)
